@@ -33,6 +33,7 @@ clause                                   | pinned discipline          | every di
 in flight ≤ fanout (`while`)             | `inflight_le_fanout`, `threadcount_le_fanout` | `G.inflight_le_fanout`, `G.threadcount_le_fanout`
 `if` construct breaks it                 | `if_variant_exceeds` (one spurious wake-up), `bound_without_spurious` (only then) | `G.if_after_exceeds_without_spurious` (a LATE wake-up call does it with NO spurious wake-up: `bound_without_spurious` is a fact about the pinned discipline only), `G.while_refuses_late_witness`
 next target started without waiting for anything but the dispatcher | `work_conserving`, `waits_only_when_full`, `room_enabled` | `G.work_conserving` (fanout slots accounted for by counted / locked / RELEASED workers), `G.parked_with_room_has_waker`, `G.waits_only_when_full`, `G.room_enabled`
+the bound is about the fanout IN USE, which is the setting whatever RLIMIT_NOFILE is; it survives failing `pthread_create` | | `X.inflight_le_fanout_in_use`, `X.nofile_prologue` (`Dsh/FanX.lean`: the prologue `_increase_nofile_limit` and create failure as transitions around `FanG.step`; the acceptor runs `FanX.step`, the harness reports `opt->fanout` and the soft limit after dsh(): keys `nofile`, `nofile_soft`)
 -/
 namespace PdshVerif.Props.C04
 section Pinned
